@@ -156,7 +156,10 @@ pub fn run_case(kvs: &[Kv], geom: Geom, sc: Scope) -> Result<u64, String> {
                 match m { M::Ge => b.ge(k), M::Gt => b.gt(k), M::Le => b.le(k), M::Lt => b.lt(k) }
             }
             let small: Vec<&Key> = bk.iter().filter(|k| k.len() <= 2).collect();
-            for x in [M::Ge, M::Gt, M::Le, M::Lt] {
+            // (x, x2): first and last setting of the same SIDE; x2 == x is the same
+            // method twice, x2 != x is ge then gt (le then lt) or the reverse: the
+            // last setting wins with its own inclusivity
+            for (x, x2) in [(M::Ge, M::Ge), (M::Gt, M::Gt), (M::Le, M::Le), (M::Lt, M::Lt), (M::Ge, M::Gt), (M::Gt, M::Ge), (M::Le, M::Lt), (M::Lt, M::Le)] {
                 let others: Vec<Option<M>> = if matches!(x, M::Ge | M::Gt) {
                     vec![None, Some(M::Le), Some(M::Lt)]
                 } else {
@@ -170,9 +173,9 @@ pub fn run_case(kvs: &[Kv], geom: Geom, sc: Scope) -> Result<u64, String> {
                             if let Some(y) = y {
                                 b = ap(b, *y, yk);
                             }
-                            b = ap(b, x, k2);
+                            b = ap(b, x2, k2);
                             let got = drain(b.into_stream())?;
-                            let (lo, lok, hi, hik): (Lo, &[u8], Hi, &[u8]) = match (x, y) {
+                            let (lo, lok, hi, hik): (Lo, &[u8], Hi, &[u8]) = match (x2, y) {
                                 (M::Ge, None) => (Lo::Ge, k2, Hi::None, b""),
                                 (M::Gt, None) => (Lo::Gt, k2, Hi::None, b""),
                                 (M::Le, None) => (Lo::None, b"", Hi::Le, k2),
@@ -191,7 +194,7 @@ pub fn run_case(kvs: &[Kv], geom: Geom, sc: Scope) -> Result<u64, String> {
                             if got != want {
                                 return Err(format!(
                                     "repeated bound {:?}({}) .. {:?} .. {:?}({}) gave {} expected {}",
-                                    x, key_str(k1), y, x, key_str(k2), kvs_str(&got), kvs_str(&want)
+                                    x, key_str(k1), y, x2, key_str(k2), kvs_str(&got), kvs_str(&want)
                                 ));
                             }
                         }
@@ -305,7 +308,7 @@ fn do_case(kvs: &[Kv], geom: Geom, sc: Scope, st: &mut Stats, rep: &Reporter) {
 pub fn plan(tier: Tier) -> Plan {
     let mut p = Plan::new("C03", "model_checking");
     p.rule = "for every FST of the scope every (lower kind, lower key, upper kind, upper key) - all ordered pairs incl. inverted ranges - is streamed through Fst::range (Map::range and Set::range for sets of <= 3 keys) and compared with the model filter; the stream must stay ended; plus every sequence ge/gt/le/lt(k1) [other-side bound] same-method(k2). Bound keys: all strings of length <= 2 (quick, large sets: <= 1) over {byte below 'a',a,b,c,d} (raw universe: {00,01,7e,7f,80,fe,ff}) plus keys, prefixes, extensions and last-byte +-1 neighbours. non-trivial = FST with >= 2 keys; the gap family also written by the independent reference encoder in versions 1, 2 and 3 (every byte as one- and two-byte ge/gt/le/lt bound)".into();
-    p.assumptions = vec!["'same kind of bound twice' is read as the same method called twice; mixed ge/gt (le/lt) overriding is not asserted".into()];
+    p.assumptions = vec!["'same kind of bound' is read as the same side (lower: ge/gt, upper: le/lt): a later call on a side replaces the earlier one, with its own inclusivity".into()];
     let thorough = tier.thorough();
     for u in [u_ab3(), u_abc2(), u_raw2()] {
         let total = 1u64 << u.keys.len();
